@@ -123,3 +123,88 @@ Proof.
   split; [reflexivity|]. split; [exact X.Ty.SoundProofs.LWit.e_inner_fault|]. split; [reflexivity|].
   split; [vm_compute; reflexivity|]. eexists. split; vm_compute; reflexivity.
 Qed.
+
+(* ------------------------------------------------------------------ the location of the first fault IS the location of a node of the tree
+   (the faulty node itself, or the operand / argument / bound the violated rule names), or the empty location *)
+Section FaultNode.
+Variable c : X.Ty.Checker.cconfig.
+Import X.Ty.SoundProofs X.Parse.Printer.
+
+Lemma bad_arg_loc_nth : forall cols pt args i,
+  bad_arg_loc c cols pt i args = noloc \/
+  exists j a, nth_error args j = Some a /\ Ast.loc_of a = bad_arg_loc c cols pt i args.
+Proof.
+  intros cols pt. induction args as [|a r IH]; intros i; cbn [bad_arg_loc]; [left; reflexivity|].
+  destruct (X.Ty.CheckProofs.vty c cols a) as [t|]; [|left; reflexivity].
+  destruct (X.Ty.CheckProofs.arg_bad a t (pt i)).
+  - right. exists 0%nat, a. split; reflexivity.
+  - destruct (IH (S i)) as [H|(j & b & H1 & H2)]; [left; exact H|right; exists (S j), b; split; assumption].
+Qed.
+
+Lemma call_fault_loc_nth : forall cols fn m here args,
+  call_fault_loc c cols fn m here args = here \/ call_fault_loc c cols fn m here args = noloc \/
+  exists j a, nth_error args j = Some a /\ Ast.loc_of a = call_fault_loc c cols fn m here args.
+Proof.
+  intros cols fn m here args. unfold call_fault_loc.
+  destruct fn; try (left; reflexivity). destruct outs as [|o [|o2 r]]; try (left; reflexivity).
+  destruct (X.Ty.Checker.arity_rule _ _ _ _); [left; reflexivity|]. right. apply bad_arg_loc_nth.
+Qed.
+
+Lemma fault_loc_node : forall cols e,
+  fault_loc c cols e = noloc \/ exists path x, node_at e path = Some x /\ Ast.loc_of x = fault_loc c cols e.
+Proof.
+  intros cols e.
+  assert (Here : forall e0 : expr, exists path x, node_at e0 path = Some x /\ Ast.loc_of x = Ast.loc_of e0)
+    by (intros e0; exists [], e0; split; reflexivity).
+  destruct e as [a|a n ns|a z|a f|a b|a s|a v|a op e|a op l r|a re l r|a e n ns|a e i|a e from to|a e name args ns|a name args fast|a b args|a e|a|a cnd e1 e2|a es|a ps|a k v];
+    cbn [fault_loc]; try (right; apply Here).
+  - (* slice *)
+    destruct (X.Ty.CheckProofs.vty c cols e) as [t|]; [|left; reflexivity].
+    destruct (X.Ty.Checker.sliceable t); [|right; apply Here].
+    assert (U : opt_loc to = noloc \/ exists path x, node_at (ESlice a e from to) path = Some x /\ Ast.loc_of x = opt_loc to).
+    { destruct to as [u|]; [right; exists [2%nat], u; split; reflexivity|left; reflexivity]. }
+    destruct from as [ff|]; [|exact U].
+    destruct (X.Ty.CheckProofs.vty c cols ff) as [tf|]; [|left; reflexivity].
+    destruct (negb _); [right; exists [1%nat], ff; split; reflexivity|exact U].
+  - (* method *)
+    destruct (X.Ty.CheckProofs.vty c cols e) as [t|]; [|left; reflexivity].
+    destruct (X.Ty.Checker.method_callee c t name) as [[fn m]|]; [|right; apply Here].
+    destruct (call_fault_loc_nth cols fn m (Ast.loc_of (EMethod a e name args ns)) args) as [H|[H|(j & b & H1 & H2)]].
+    + rewrite H. right. apply Here.
+    + left. exact H.
+    + right. exists [S j], b. split; [cbn [node_at pchild]; rewrite H1; reflexivity|exact H2].
+  - (* function *)
+    destruct (X.Ty.Checker.function_callee c name) as [[fn m]|]; [|right; apply Here].
+    destruct (call_fault_loc_nth cols fn m (Ast.loc_of (EFunction a name args fast)) args) as [H|[H|(j & b & H1 & H2)]].
+    + rewrite H. right. apply Here.
+    + left. exact H.
+    + right. exists [j], b. split; [cbn [node_at pchild]; rewrite H1; reflexivity|exact H2].
+  - (* builtin *)
+    destruct b; try (right; apply Here);
+      (destruct args as [|x [|cl rest]]; try (right; apply Here);
+       destruct (X.Ty.CheckProofs.vty c cols x) as [t|]; [|left; reflexivity];
+       destruct (X.Ty.Checker.is_array t); right; [exists [1%nat], cl|exists [0%nat], x]; split; reflexivity).
+  - (* conditional *) right. exists [0%nat], cnd. split; reflexivity.
+Qed.
+
+Lemma nth_error_mid : forall (pre : list expr) y post, nth_error (pre ++ y :: post) (List.length pre) = Some y.
+Proof. intros. rewrite nth_error_app2 by apply le_n. rewrite Nat.sub_diag. reflexivity. Qed.
+
+Lemma step_child : forall cols e cols' x, step c cols e cols' x -> exists i, pchild e i = Some x.
+Proof.
+  intros cols e cols' x H. destruct H;
+    try (exists 0%nat; reflexivity); try (exists 1%nat; reflexivity); try (exists 2%nat; reflexivity);
+    try (exists (List.length pre); cbn [pchild]; apply nth_error_mid);
+    try (exists (S (List.length pre)); cbn [pchild]; apply nth_error_mid).
+Qed.
+
+Theorem first_fault_at_node : forall cols e l, first_fault c cols e l ->
+  l = noloc \/ exists path x, node_at e path = Some x /\ Ast.loc_of x = l.
+Proof.
+  intros cols e l H. induction H as [cols e R|cols e cols' x l S F IH].
+  - apply fault_loc_node.
+  - destruct IH as [IH|(path & y & H1 & H2)]; [left; exact IH|].
+    destruct (step_child cols e cols' x S) as [i Hi].
+    right. exists (i :: path), y. split; [cbn [node_at]; rewrite Hi; exact H1|exact H2].
+Qed.
+End FaultNode.
